@@ -39,8 +39,9 @@ RULE = (
     "str: every token sequence over the 25-token syntax alphabet (' \" [ ] { } : , | = ... * ** _( ) \\ space newline "
     "%} {{ }} {% / a 1) up to 4 tokens (thorough: 5, plus 6 over a reduced 12-token alphabet), each distinct string once "
     "(sequences that are not the greedy tokenisation of their string are skipped), is passed to parse_tag (+serialize"
-    "+compile of every attribute) and compiled inside the component tag (all strings) and inside slot/fill/provide/"
-    "html_attrs (all strings up to 3 tokens - thorough: 4 - and one rotating tag beyond); Hypothesis adds random token "
+    "+compile of every attribute) and compiled inside the component tag (all strings up to 4 tokens) and inside slot/fill/"
+    "provide/html_attrs (all strings up to 3 tokens - thorough: 4 - and one rotating tag for 4-token strings; for 5 and 6 "
+    "tokens every third string goes through one of the five tags in rotation); Hypothesis adds random token "
     "strings of 5-40 tokens over an extended alphabet and 1-4 token-level mutations of grammar-valid tags (all five "
     "tags), plus whole template sources built from tag/text/delimiter fragments.  growth: ~45 adversarial families x "
     "{r,2r,4r}.  rt: tags generated from a grammar of the documented syntax (literals, variables, filters with "
@@ -69,9 +70,9 @@ BOUNDS = {
         "fuzz_direct": 600000,
         "fuzz_tags": 160000,
         "src": 50000,
-        "rt": 120000,
+        "rt": 60000,
         "growth_scale": 2,
-        "atheris_runs": 400000,
+        "atheris_runs": 300000,
     },
 }
 WATCHDOG_S = {"quick": 1500, "thorough": 4 * 3600}
@@ -337,8 +338,8 @@ def run_enum(spec, col):
             tags = TAG_NAMES
         elif mode == "comp+rot":
             tags = ["component", ROTATING[idx % 4]]
-        else:  # "rot"
-            tags = [TAG_NAMES[idx % 5]]
+        else:  # "rot3": every third string goes through one tag (rotating over all five), all through parse_tag
+            tags = [TAG_NAMES[(idx // 3) % 5]] if idx % 3 == 0 else []
         fails, labels = run_string(s, tags)
         nt = not QB.isdisjoint(s)
         if spec.get("count_only"):
@@ -346,7 +347,8 @@ def run_enum(spec, col):
             if nt:
                 cnt["enum_big_nontrivial_distinct(not in distinct_nontrivial)"] += 1
         else:
-            col.case(s, nt, sample={"part": "str", "s": s, "tags": tags} if nt else None)
+            # samples: prefer strings that parse (the rejected majority is represented by the counters)
+            col.case(s, nt, sample={"part": "str", "s": s, "tags": tags} if nt and length >= 3 and "direct_ok" in labels else None)
         for lb in labels:
             cnt[lb] += 1
         cnt["enum_L%d%s" % (length, "" if spec["alpha"] == "full" else "_reduced")] += 1
@@ -390,7 +392,7 @@ def _fam():
     add("dynexpr_var_filtered", "direct", 150, lambda r: "'" + "{{}}" * r + "'|lower", "dynexpr")
     add("dynexpr_var_filtered_tag", "tag:component", 150, lambda r: "'" + "{{}}" * r + "'|lower", "dynexpr")
     add("dynexpr_open_only", "direct", 400, lambda r: '"' + "{{" * r + '"')
-    add("dynexpr_mixed", "direct", 75, lambda r: '"' + "{{%}{#}}" * r + "x")
+    add("dynexpr_mixed", "direct", 75, lambda r: '"' + "{{%}{#}}" * r + "x", "dynexpr")
     # containers
     add("deep_list_open", "direct", 500, lambda r: "[" * r)
     add("deep_list", "direct", 500, lambda r: "[" * r + "1" + "]" * r, "deep_brackets")
@@ -994,14 +996,14 @@ def plan(tier, seed, scale=1.0):
         elif L <= 4:
             mode, per = "comp+rot", 8200
         else:
-            mode, per = "comp+rot", 66000
+            mode, per = "rot3", 66000
         for lo, hi in _chunks(total, max(1, total // per)):
             specs.append({"kind": "enum", "alpha": "full", "L": L, "lo": lo, "hi": hi, "tags": mode, "count_only": L >= 5})
     if b.get("enum_reduced_len"):
         L = b["enum_reduced_len"]
         total = len(REDUCED) ** L
         for lo, hi in _chunks(total, 48):
-            specs.append({"kind": "enum", "alpha": "reduced", "L": L, "lo": lo, "hi": hi, "tags": "rot", "count_only": True})
+            specs.append({"kind": "enum", "alpha": "reduced", "L": L, "lo": lo, "hi": hi, "tags": "rot3", "count_only": True})
 
     def hyp(kind, total, shards):
         n = max(20, int(total * scale) // shards)
@@ -1013,9 +1015,9 @@ def plan(tier, seed, scale=1.0):
     hyp("fuzz_tags", b["fuzz_tags"], 32 if big else 12)
     hyp("src", b["src"], 8 if big else 4)
     hyp("rt", b["rt"], 16 if big else 8)
-    if b.get("atheris_runs"):
+    if b.get("atheris_runs"):  # single-threaded and long: started first
         for target in ("parse_tag", "template"):
-            specs.append({"kind": "atheris", "target": target, "runs": int(b["atheris_runs"] * scale), "seed": derive_seed(seed, "atheris", target) % (2**31)})
+            specs.insert(0, {"kind": "atheris", "target": target, "runs": int(b["atheris_runs"] * scale), "seed": derive_seed(seed, "atheris", target) % (2**31)})
     return specs
 
 
@@ -1073,7 +1075,7 @@ def _check_strs(col, sink):
             fails, labels = run_string(s, case["tags"])
             nt = not QB.isdisjoint(s)
             one = {"part": "str", "s": s, "tags": case["tags"]}
-            col.case(s, nt, sample=one if nt else None, labels=labels + ["fuzz"])
+            col.case(s, nt, sample=one if nt and ("direct_ok" in labels or "tag_ok" in labels) else None, labels=labels + ["fuzz"])
             out.extend(sink.route(one, fails, len(s)))
         return out
 
